@@ -1,7 +1,7 @@
 (* Property C10 - creating an evaluator is total on arbitrary bytes: evaluator xor error, no panic.
    Statements only; proofs are in C10.v, AbortErr.v, TermBexpr.v, Glue.v (over the table regenerated from grammar.go). *)
 From Coq Require Import List String NArith.
-From Bexpr Require Import Base Ast Unicode Peg Typing Actions GoGrammar AbortErr C10 TermBexpr Api Glue ModelApi.
+From Bexpr Require Import Base Ast Unicode Peg Typing Actions GoGrammar AbortErr C10 TermBexpr Api Glue Canon CanonId ModelApi.
 
 (* whatever the bytes, the budget and the fuel: an accepted parse yields an expression tree, and a well-formed one
    (so the `ast.(grammar.Expression)` assertion of CreateEvaluator cannot fail, and every node kind is one Evaluate and
@@ -47,7 +47,7 @@ Theorem c10_model_parse_shape : forall mx s,
   | NoFuel => True
   end.
 Proof.
-  intros mx s. unfold model_parse.
+  intros mx s. unfold model_parse. rewrite canon_go_id.
   destruct (parse go_grammar mx action_sem pred_sem big_fuel s) as [v n|k n m|] eqn:E.
   - exact (C10.c10_accepted_is_expression mx big_fuel s v n E).
   - exact (parse_rejected_has_error go_grammar mx action_sem pred_sem big_fuel s k n m E).
